@@ -147,6 +147,49 @@ def extra(rng, tier):
                 st = (st0[0], ext) + tuple(st0[2:])
                 lines.append(i1_line(S, xs, shape, flat, st, e_array(S, [len(qs)], qs)))
         pairs.append(len(lines) - 2)
+    # (c) f64 / f32 splines on axes in ordinary and in extreme units (interval lengths whose third power leaves the number range while
+    # their square does not: 2^+-(340..470) at f64, 2^+-(44..60) at f32; seed C06-r5m1), queried up to one span outside: compared with
+    # the exact continuation of the end cubic computed by the same crate at Q on the same (float) inputs, tolerance scaled
+    fl_lines, fl_meta = [], []
+    for _ in range(gen.N(tier, 50, 1200)):
+        S = rng.choice(["F", "G"])
+        n = rng.choice([3, 4, 5, 7])
+        rd = (lambda v: v) if S == "F" else vlib.f32_round
+        us = sorted({rng.randint(-64, 64) / 8 for _ in range(3 * n)})
+        if len(us) < n:
+            continue
+        i0 = rng.randrange(len(us) - n + 1)
+        us = us[i0:i0 + n]
+        kk = rng.choice([0, 0, 1, -1]) * (rng.randint(340, 470) if S == "F" else rng.randint(44, 60))
+        unit = 2.0 ** kk
+        xs = [u * unit for u in us]
+        flat = [rd(rng.uniform(-4, 4)) for _ in range(n)]
+        bc = rng.choice(SPL_BCS)
+        span = us[-1] - us[0]
+        vs = [us[0] - span * k_ for k_ in (1 / 64, 0.25, 1.0)] + [us[-1] + span * k_ for k_ in (1 / 64, 0.25, 1.0)] + [us[0], us[-1], (us[0] + us[1]) / 2]
+        qs = [v * unit for v in vs]
+        if any(rd(x) != x for x in xs + qs):
+            continue
+        fl_lines.append(i1_line(S, xs, [n], flat, ("spl", True, bc), e_array(S, [len(qs)], qs)))
+        fl_lines.append(i1_line("Q", [Fr(x) for x in xs], [n], [Fr(v) for v in flat], ("spl", True, bc), e_array("Q", [len(qs)], [Fr(q) for q in qs])))
+        hs = [b - a for a, b in zip(us, us[1:])]
+        fl_meta.append((S, (max(hs) / min(hs)) ** 2))
+    fl_outs = vlib.run_impl_only(ID, fl_lines, tag="extra_fl")
+    worst = 0.0
+    for k, (S, ratio) in enumerate(fl_meta):
+        rf, rq = Result(fl_outs[2 * k]), Result(fl_outs[2 * k + 1])
+        if rf.kind != "ok" or rq.kind != "ok":
+            fails.append({"line": fl_lines[2 * k], "impl": fl_outs[2 * k][:200], "required": f"extrapolating spline must answer at {S} and exactly: {fl_outs[2 * k + 1][:100]}"})
+            continue
+        got = rf.floats()
+        for g, e in zip(got, rq.fractions()):
+            tol = (2.0 ** -30 if S == "F" else 2.0 ** -10) * ratio * (abs(float(e)) + 40.0)
+            err = abs(g - float(e))
+            worst = max(worst, err / tol) if math.isfinite(err) else worst
+            if not math.isfinite(g) or err > tol:
+                fails.append({"line": fl_lines[2 * k], "impl": fl_outs[2 * k][:300],
+                              "required": f"{'f64' if S == 'F' else 'f32'} value {g} must continue the end cubic: exact value {float(e)} (error {err:.3e} > tolerance {tol:.3e})"})
+                break
     outs = vlib.run_impl_only(ID, lines, tag="extra")
     for k in range(n_a):
         r = Result(outs[k])
@@ -175,4 +218,5 @@ def extra(rng, tier):
         if a != b or not a.startswith("ok"):
             fails.append({"line": lines[p + 1], "impl": b[:200],
                           "required": f"in-range results must be identical with extrapolation off: {a[:200]}"})
-    return {"evaluations": len(lines), "failures": fails, "hist": {"spline_end_cubic": n_a, "on_off_pairs": len(pairs)}}
+    return {"evaluations": len(lines) + len(fl_lines), "failures": fails, "hist": {"spline_end_cubic": n_a, "on_off_pairs": len(pairs), "float_vs_exact_extrapolation": len(fl_meta)},
+            "notes": [f"worst float extrapolation error / tolerance = {worst:.3e}"]}
